@@ -105,7 +105,10 @@ RULE = ("(1) every one of the 2400 one-argument configurations (argument kind - 
         "in one-argument and several-argument invocations; whenever a pattern is absolute the reference is the library "
         "on the path AS GIVEN - Directory.from_disk(path=arg, path_filter=ignore_directories_patterns(arg, patterns)) - "
         "because such a pattern is relative to the spelling of the root it comes with (the unfiltered identifier stays "
-        "checked against the canonical object)")
+        "checked against the canonical object); (10) exclusion patterns as a shell or a careless user writes them - "
+        "a trailing slash, doubled slashes, a leading './', a trailing '/.' - which would match an entry once cleaned: "
+        "the library takes a pattern literally, and so must the command (table sets, pattern pools of the "
+        "several-arguments route, absolute patterns); a case field `wae` forces warnings-as-errors for one run")
 TRUSTED = ["click option parsing, os.path.*, os.scandir, dulwich and git are modelled by a table per argument kind "
            "(model/Cli.v: isfile/isdir/islink/lstat/stat/urlparse scheme/urlparse raises/Origin refuses/is-a-git-repository), "
            "not verified; which kind a string argument has is decided by calling urlparse and model.Origin on it",
@@ -298,6 +301,22 @@ def origin_id(s):
         return None
 
 
+def snapshot_error(arg):
+    """what `-t snapshot <arg>` ends in when <arg> is not a readable git repository (an out-of-scope row): the class of
+    the exception raised by the very call the command makes (dulwich decides: NotGitRepository for most things, but a
+    directory that merely resembles a repository may fail later and differently), 'usage' for a click usage error,
+    None when the call succeeds"""
+    import click
+    from swh.model import cli
+    try:
+        cli.swhid_of_git_repo(arg)
+    except click.ClickException:
+        return "usage"
+    except Exception as e:
+        return type(e).__name__
+    return None
+
+
 def library_error(cfg_type, arg, excluded):
     """class of the exception the library call behind an explicit --type raises for a string that is no path"""
     from swh.model import from_disk
@@ -342,9 +361,15 @@ def _git(repo, *args):
     return p.stdout
 
 
-def _tokname(rng, taken):
+# names that make up a git repository's layout: kept out of the TOP level of plain (non-repository) fixture directories,
+# so that a plain directory stays something dulwich refuses at once (inside sub-directories they are fine)
+GIT_LAYOUT = {b"HEAD", b"refs", b"config", b"objects", b"packed-refs", b"index", b"info", b"hooks", b"branches",
+              b"description", b"shallow", b"commondir", b"gitdir", b".git"}
+
+
+def _tokname(rng, taken, avoid=()):
     """a harvested literal as a name, made unique with a counter"""
-    t = rng.choice(name_tokens())
+    t = rng.choice([q for q in name_tokens() if q not in avoid])
     n, k = t, 0
     while n in taken:
         k += 1
@@ -386,7 +411,8 @@ def _populate(rng, top, nonutf8, tag=b"A", toknames=False):
     def fresh(prefix=b""):
         while True:
             if toknames and prefix == b"" and rng.random() < 0.6:
-                n = _tokname(rng, names)      # e.g. a file named HEAD, a directory named .git or --help or swh:1:dir:
+                n = _tokname(rng, names, GIT_LAYOUT)   # e.g. a directory named --help or swh:1:dir: (not HEAD / refs / .git
+                                                       # at the top of a plain directory: it must stay a non-repository)
                 names.add(n)
                 return n
             n = _rname(rng, nonutf8, prefix)
@@ -402,6 +428,10 @@ def _populate(rng, top, nonutf8, tag=b"A", toknames=False):
         f.write(shared)                                           # identical file elsewhere in the tree
     with open(os.path.join(sub, b"x" + _rname(rng, nonutf8)), "wb") as f:
         f.write(_rdata(rng))
+    if toknames:
+        for n in rng.sample(sorted(GIT_LAYOUT), 2):           # HEAD, refs, .git ... INSIDE a sub-directory
+            with open(os.path.join(sub, n), "wb") as f:
+                f.write(_rdata(rng))
     os.chmod(os.path.join(sub, os.listdir(sub)[0]), 0o755)
     os.symlink(os.path.join(b"..", f1), os.path.join(sub, b"ln" + _rname(rng, False)))   # inner symlink
     deep = os.path.join(sub, b"deep" + _rname(rng, nonutf8))
@@ -683,7 +713,10 @@ EXCLUDE = ["sub*"]
 # match files, nothing or everything-below-sub, the empty pattern, a pattern that is no valid glob class, non-ASCII
 EXCLUDE_SETS = [["sub*"], ["sub*", "sub*"], ["nomatch*", "sub*", "*.c"], ["", "sub*"], ["[", "sub*", "\u00e9*"],
                 ["sub*", "same*", "README"], ["only_*", "sub*", "*/deep*"],
-                ["sub*", "*\udcff*", "*\udce9t\udce9*"]]          # patterns that are not valid UTF-8
+                ["sub*", "*\udcff*", "*\udce9t\udce9*"],          # patterns that are not valid UTF-8
+                # patterns that WOULD match an entry once "cleaned": a trailing slash (as the shell completes a
+                # directory name), doubled slashes, a leading ./ - the library takes a pattern literally
+                ["sub*/"], ["./sub*", "sub*//"], ["sub*/", "subdir/", ".git/", "only_*/"], ["sub*", "subdir/."]]
 
 
 def fx_exclude(fx):
@@ -787,6 +820,9 @@ def expected_ids(fx):
                ids["origin:url"], ids["snapshot"], ids["dir:badrefs:0"], ids["dir:badrefs:1"]]
     if fx["spec"].get("gitstate") != "bare":        # a bare repository has no sub* directory to exclude
         generic.append(ids["dir:gitrepo:1"])
+    if "sub*" not in fx_exclude(fx):                # the table's patterns exclude nothing (e.g. 'sub*/'): same ids
+        generic = [g for g in generic if g not in (ids["dir:dir:1"], ids["dir:linkdir:1"], ids["dir:badrefs:1"],
+                                                   ids["dir:gitrepo:1"])]
     if not fx["spec"].get("empties"):               # empties: the file and standard input are the empty content
         generic += [ids["pathcontent"], ids["stdin"]]
     assert len(set(generic)) == len(generic), "fixture is not generic"
@@ -878,9 +914,9 @@ def under_patterns(arg, suffixes, base, how):
     return [os.fsdecode(a.rstrip(b"/") + b"/" + os.fsencode(sfx)) for sfx in suffixes]
 
 
-UNDER_SUFFIX = {"dir": ["sub*"], "linkdir": ["sub*"], "chain2d": ["sub*", "only_C*"], "middir": ["deep*"], "gitrepo": ["subdir"],
-                "badrefs": ["subdir", ".git"], "gitdir": ["refs"], "emptydir": ["x*"], "dir2": ["sub*"], "lt": ["sub*"],
-                "dir_sub": ["deep*"], "dir_other": ["nomatch*"]}
+UNDER_SUFFIX = {"dir": ["sub*", "only_A*/"], "linkdir": ["sub*"], "chain2d": ["sub*", "only_C*"], "middir": ["deep*"],
+                "gitrepo": ["subdir", "only_G*/"], "badrefs": ["subdir", ".git"], "gitdir": ["refs"], "emptydir": ["x*"],
+                "dir2": ["sub*", "only_C*//"], "lt": ["sub*"], "dir_sub": ["deep*"], "dir_other": ["nomatch*"]}
 
 
 def canon_rel(p, top, base):
@@ -1134,7 +1170,7 @@ def canon_run(exit_code, stdout, exc):
     return res
 
 
-def run_inprocess(args, stdin, cwd=None):
+def run_inprocess(args, stdin, cwd=None, wae=False):
     """click's CliRunner.  Its capture stream for stdout is a strict UTF-8 writer, whereas the standard output of a
     real process under the C/POSIX locale (the only ones on this machine) uses surrogateescape; the capture stream
     is given the same error handler so that printing a file name that is not valid UTF-8 behaves as in the real
@@ -1154,11 +1190,15 @@ def run_inprocess(args, stdin, cwd=None):
 
     logging.disable(logging.CRITICAL)
     click.testing._NamedTextIOWrapper = Tolerant
+    import warnings
     old = os.getcwd()
     try:
         if cwd is not None:
             os.chdir(cwd)                 # relative spellings: the working directory is changed and restored
-        r = CliRunner().invoke(cli.identify, args, input=stdin)
+        with warnings.catch_warnings():
+            if wae:
+                warnings.simplefilter("error")    # this case asks for warnings as errors whatever core decided
+            r = CliRunner().invoke(cli.identify, args, input=stdin)
     finally:
         os.chdir(old)
         click.testing._NamedTextIOWrapper = base
@@ -1352,7 +1392,7 @@ def impl(case):
         if case.get("sub"):
             run = run_subprocess(args, stdin, cwd or os.fsdecode(fx["root"]))
         else:
-            run = run_inprocess(args, stdin, cwd)
+            run = run_inprocess(args, stdin, cwd, bool(case.get("wae")))
         res = {"run": run, "args": [a if a != arg else "<" + cfg[0] + ">" for a in args[:-1]] + ["<" + cfg[0] + ">"],
                "outcomes": {"model": row["model"], "spec": row["spec"]}}
         if cfg[0] in STRING_KINDS or idk:
@@ -1396,6 +1436,12 @@ def expected(fx, cfg, outcome, argstr=None, idk=None, base=None, xpats=None):
         # out of scope facts that are not in the table: -t origin <path or string that model.Origin refuses (not valid
         # UTF-8, 2048 bytes or more)> is the same usage error as for a refused URL
         return {"exit": 2, "lines": [], "usage": True}
+    if parts[0] == "crash" and cfg[1] == "snapshot" and k != "stdin":
+        # out of scope (a crash row is never in scope): the class is the one the call itself raises on this argument
+        err = snapshot_error(arg)
+        if err == "usage":
+            return {"exit": 2, "lines": [], "usage": True}
+        return {"exit": 1, "lines": [], "exc": err or parts[1]}
     if parts[0] == "crash" and idk and OBJ_KIND.get(idk) in ("dangle", "loop") and cfg[1] in ("content", "directory"):
         # out of scope: the error class for a link that leads nowhere (no such file / too many levels of links) is
         # the one the library call raises on the path the command hands it
@@ -1641,6 +1687,13 @@ def expected_many(fx, m, run):
     if (end in ("exit0", "exit1") and m["type"] == "origin" and REF_KIND[m["args"][0]] != "stdin"
             and origin_id(m_arg(fx, m, 0)) is None):
         exp.update({"exit": 2})                                  # same out-of-scope case under --verify
+    if end.startswith("crash") and m["type"] == "snapshot" and len(lines) < len(m["args"]):
+        err = snapshot_error(m_arg(fx, m, len(lines)))           # out of scope: ask the call itself
+        if err == "usage":
+            exp.update({"exit": 2})
+            exp.pop("exc", None)
+        elif err:
+            exp["exc"] = err
     if end.startswith("crash") and m["type"] in ("content", "directory") and len(lines) < len(m["args"]):
         bad = len(lines)
         if m_kind(m, bad) in STRING_KINDS:                       # which error a string that is no path gets: ask the library
@@ -1747,6 +1800,9 @@ def _pick_patterns(rng, refs, n):
             pats.append(rng.choice(GENERIC))
     out = []
     for q in pats:
+        if not q.startswith("@") and rng.random() < 0.2:
+            # the pattern as a shell or a careless user would write it: the library takes it literally
+            q = rng.choice([q + "/", q + "//", "./" + q, q + "/.", "/" + q if False else q + "/"])
         if q not in out or rng.random() < 0.3:      # now and then the same pattern twice
             out.append(q)
     return out
@@ -1853,7 +1909,7 @@ def gen(rng, tier):
         if s % 3 == 0:
             fx["toknames"] = 1           # files / directories / links named after literals of the source under test
             toks = str_tokens()
-            fx["xtokens"] = [rng.choice([t, "*" + t + "*", t + "*"]) for t in rng.sample(toks, 2)]
+            fx["xtokens"] = [rng.choice([t, "*" + t + "*", t + "*", t + "/"]) for t in rng.sample(toks, 2)]
         if s % 2 == 1:
             fx["dashnames"] = 1          # the file argument's name starts with '-'
         if s % 4 == 1 or (tier == "thorough" and s % 4 == 3):
@@ -1879,7 +1935,7 @@ def gen(rng, tier):
             cases += gen_strings(rng, fx, tier)
         cases += gen_spellings(rng, fx, tier)
         cases += gen_raw_hist(rng, fx, tier, s)
-        many = gen_many(rng, fx, 170 if tier == "quick" else 800)
+        many = gen_many(rng, fx, 150 if tier == "quick" else 600)
         for c in many:
             if rng.random() < 0.3:
                 c["oform"] = rng.randrange(1, 10 ** 6)
@@ -1939,7 +1995,7 @@ def gen_spellings(rng, fx, tier):
                     cases.append(c)
                 if obj in UNDER_SUFFIX:
                     # an ABSOLUTE exclusion pattern spelled under the argument's own spelling
-                    for how in ((1, 2) if tier == "thorough" else (rng.choice([1, 2]),)):
+                    for how in (rng.choice([1, 2]),):
                         t, d, f, r, v = rng.choice([("auto", 1, 1, 0, "none"), ("auto", 1, 0, 0, "match"),
                                                     ("directory", 1, 1, 1, "none"), ("auto", 0, 1, 0, "none"),
                                                     ("auto", 1, 1, 1, "none")])
@@ -1979,7 +2035,7 @@ def gen_raw_hist(rng, fx, tier, s):
 def gen_strings(rng, fx, tier):
     """arguments that name no existing path, one by one: every family of string_pool() plus random short strings, under
     --type auto and every explicit type, a few option combinations each, a few through the real subprocess"""
-    strings = string_pool(rng) + random_strings(rng, 25 if tier == "quick" else 300)
+    strings = string_pool(rng) + random_strings(rng, 25 if tier == "quick" else 200)
     # the literals of the source under test, alone, as a scheme, as a host, spliced into a path that does not exist
     from . import gitobj_common as G
     toks = str_tokens()
@@ -2158,6 +2214,8 @@ def shrink(c):
         extra["path"] = c["path"]
     if "xunder" in c:
         extra["xunder"] = c["xunder"]
+    if "wae" in c:
+        extra["wae"] = c["wae"]
     if c.get("sub"):
         yield dict({"fx": c["fx"], "cfg": c["cfg"]}, **extra)
     for i, dflt in ((1, "auto"), (2, 1), (3, 1), (4, 0), (5, "none"), (6, 0)):
